@@ -636,6 +636,10 @@ spifconf_shell_expand(spif_charptr_t s)
                   }
                   ASSERT_RVAL(l < CONFIG_BUFF, NULL);
                   Command[l] = 0;
+                  if (!*pbuff) {
+                      /* No closing backquote; stay on the terminator. */
+                      pbuff--;
+                  }
                   Command = spifconf_shell_expand(Command);
                   Output = builtin_exec(Command);
                   FREE(Command);
